@@ -83,6 +83,9 @@ pub struct Ops {
     /// the color as the payload of a user enum (`style`: untagged, internally tagged, adjacently tagged),
     /// through JSON text, a `serde_json::Value` or RON
     pub enum_round: fn(&[f64], u8, u8) -> IoResult<EnumRound>,
+    /// several colors in one document (a vector, an option, a tuple, a map, a user struct with other colors
+    /// and scalars in between, a stream of documents): what one conversation leaves behind must not reach the next
+    pub container_round: fn(&ContainerArgs<'_>) -> IoResult<ContainerRound>,
 }
 
 /// Result of one enum-wrapped round trip.
@@ -249,6 +252,256 @@ fn enum_round<X: Case>(vals: &[f64], style: u8, via: u8) -> IoResult<EnumRound> 
     }
 }
 
+// ------------------------------------------------------------------ colors inside larger documents
+
+pub struct ContainerArgs<'a> {
+    /// up to three values of the case's type
+    pub vals: [&'a [f64]; 3],
+    pub form: u8,
+    /// 0 JSON text, 1 `serde_json::Value`, 2 RON text, 3 JSON from a simulated reader
+    pub via: u8,
+    /// number of elements for the vector and stream forms (0..=3)
+    pub n: u8,
+    pub read: &'a IoPlan,
+}
+
+pub const CONTAINER_FORMS: [&str; 11] =
+    ["vec", "option-some", "option-none", "tuple", "array", "map", "mixed-struct", "tuple-with-others", "vec-of-pairs", "newtype", "stream"];
+
+pub enum ContainerRound {
+    NotExpressible(String),
+    Back {
+        text: String,
+        /// the same document put together from each part serialized on its own (JSON and RON text)
+        composed: Option<String>,
+        /// one outcome per color position, in document order
+        outcomes: Vec<(usize, Outcome)>,
+        /// everything that is not a color of the case's type came back equal
+        others_ok: bool,
+        io: Option<crate::io::IoStats>,
+    },
+}
+
+#[derive(Serialize, Deserialize, Debug, PartialEq)]
+#[serde(bound(serialize = "X: Serialize", deserialize = "X: DeserializeOwned"))]
+struct Mixed<X> {
+    before: u32,
+    first: X,
+    mid: palette::Hsla,
+    second: X,
+    plain: palette::LinSrgb<f64>,
+    bytes: palette::Srgba<u8>,
+    after: String,
+    last: X,
+}
+
+#[derive(Serialize, Deserialize, Debug, PartialEq)]
+#[serde(bound(serialize = "X: Serialize", deserialize = "X: DeserializeOwned"))]
+struct Wrap<X>(X);
+
+enum RoundErr {
+    NotExpressible(String),
+    Failed(String),
+}
+
+fn round_doc<D: Serialize + DeserializeOwned>(doc: &D, via: u8, read: &IoPlan) -> Result<(String, D, Option<crate::io::IoStats>), RoundErr> {
+    match via {
+        1 => {
+            let v = serde_json::to_value(doc).map_err(|e| RoundErr::NotExpressible(e.to_string()))?;
+            let text = v.to_string();
+            let b = serde_json::from_value::<D>(v).map_err(|e| RoundErr::Failed(format!("{text} -> {e}")))?;
+            Ok((text, b, None))
+        }
+        2 => {
+            let text = ron::ser::to_string(doc).map_err(|e| RoundErr::NotExpressible(e.to_string()))?;
+            let b = ron::de::from_str::<D>(&text).map_err(|e| RoundErr::Failed(format!("{text} -> {e}")))?;
+            Ok((text, b, None))
+        }
+        3 => {
+            let text = serde_json::to_string(doc).map_err(|e| RoundErr::NotExpressible(e.to_string()))?;
+            let mut r = SimReader::new(text.as_bytes(), read);
+            let b = serde_json::from_reader::<_, D>(&mut r).map_err(|e| RoundErr::Failed(format!("{text} (from a reader) -> {e}")))?;
+            let st = r.stats;
+            Ok((text, b, Some(st)))
+        }
+        _ => {
+            let text = serde_json::to_string(doc).map_err(|e| RoundErr::NotExpressible(e.to_string()))?;
+            let b = serde_json::from_str::<D>(&text).map_err(|e| RoundErr::Failed(format!("{text} -> {e}")))?;
+            Ok((text, b, None))
+        }
+    }
+}
+
+fn container_round<X: Case>(a: &ContainerArgs<'_>) -> IoResult<ContainerRound> {
+    let ron = a.via == 2;
+    let n = (a.n as usize).min(3);
+    let build = |i: usize| X::build(a.vals[i]);
+    // every part on its own, in the same format
+    let part = |i: usize| -> Option<String> {
+        if ron {
+            ron::ser::to_string(&build(i)).ok()
+        } else {
+            serde_json::to_string(&build(i)).ok()
+        }
+    };
+    let own = |v: &dyn erased::Ser| -> Option<String> { v.text(ron) };
+    macro_rules! finish {
+        ($doc:expr, $composed:expr, $extract:expr, $others:expr) => {{
+            let doc = $doc;
+            match round_doc(&doc, a.via, a.read) {
+                Ok((text, back, io)) => {
+                    let others_ok: bool = ($others)(&doc, &back);
+                    let xs: Vec<(usize, X)> = ($extract)(back);
+                    let outcomes = xs.into_iter().map(|(i, x)| (i, outcome(x, a.vals[i]))).collect();
+                    let composed: Option<String> = if a.via == 1 { None } else { $composed };
+                    Ok(ContainerRound::Back { text, composed, outcomes, others_ok, io })
+                }
+                Err(RoundErr::NotExpressible(e)) => Ok(ContainerRound::NotExpressible(e)),
+                Err(RoundErr::Failed(e)) => Err(e),
+            }
+        }};
+    }
+    match a.form {
+        0 => finish!(
+            (0..n).map(build).collect::<Vec<X>>(),
+            (0..n).map(part).collect::<Option<Vec<String>>>().map(|p| format!("[{}]", p.join(","))),
+            |b: Vec<X>| b.into_iter().enumerate().collect::<Vec<_>>(),
+            |d: &Vec<X>, b: &Vec<X>| d.len() == b.len()
+        ),
+        1 => finish!(
+            Some(build(0)),
+            part(0).map(|p| if ron { format!("Some({p})") } else { p }),
+            |b: Option<X>| b.into_iter().map(|x| (0, x)).collect::<Vec<_>>(),
+            |_d: &Option<X>, b: &Option<X>| b.is_some()
+        ),
+        2 => finish!(
+            None::<X>,
+            Some(if ron { "None".to_string() } else { "null".to_string() }),
+            |b: Option<X>| b.into_iter().map(|x| (0, x)).collect::<Vec<_>>(),
+            |_d: &Option<X>, b: &Option<X>| b.is_none()
+        ),
+        3 => finish!(
+            (build(0), build(1)),
+            part(0).zip(part(1)).map(|(p, q)| if ron { format!("({p},{q})") } else { format!("[{p},{q}]") }),
+            |b: (X, X)| vec![(0, b.0), (1, b.1)],
+            |_d: &(X, X), _b: &(X, X)| true
+        ),
+        4 => finish!(
+            [build(0), build(1)],
+            part(0).zip(part(1)).map(|(p, q)| if ron { format!("({p},{q})") } else { format!("[{p},{q}]") }),
+            |b: [X; 2]| {
+                let [x, y] = b;
+                vec![(0, x), (1, y)]
+            },
+            |_d: &[X; 2], _b: &[X; 2]| true
+        ),
+        5 => finish!(
+            {
+                let mut m = std::collections::BTreeMap::new();
+                m.insert("first".to_string(), build(0));
+                m.insert("second".to_string(), build(1));
+                m
+            },
+            part(0).zip(part(1)).map(|(p, q)| format!("{{\"first\":{p},\"second\":{q}}}")),
+            |mut b: std::collections::BTreeMap<String, X>| {
+                let mut out = Vec::new();
+                if let Some(x) = b.remove("first") {
+                    out.push((0, x));
+                }
+                if let Some(x) = b.remove("second") {
+                    out.push((1, x));
+                }
+                out
+            },
+            |_d: &std::collections::BTreeMap<String, X>, b: &std::collections::BTreeMap<String, X>| b.len() == 2 && b.contains_key("first") && b.contains_key("second")
+        ),
+        6 => {
+            let mid = palette::Hsla::new(120.0, 0.5, 0.25, 0.75);
+            let plain = palette::LinSrgb::<f64>::new(0.125, 0.5, 1.0);
+            let bytes = palette::Srgba::<u8>::new(1, 2, 3, 4);
+            finish!(
+                Mixed { before: 7, first: build(0), mid, second: build(1), plain, bytes, after: "end".to_string(), last: build(2) },
+                (|| {
+                    let (p, q, r) = (part(0)?, part(1)?, part(2)?);
+                    let (m, pl, by) = (own(&mid)?, own(&plain)?, own(&bytes)?);
+                    Some(if ron {
+                        format!("(before:7,first:{p},mid:{m},second:{q},plain:{pl},bytes:{by},after:\"end\",last:{r})")
+                    } else {
+                        format!("{{\"before\":7,\"first\":{p},\"mid\":{m},\"second\":{q},\"plain\":{pl},\"bytes\":{by},\"after\":\"end\",\"last\":{r}}}")
+                    })
+                })(),
+                |b: Mixed<X>| vec![(0, b.first), (1, b.second), (2, b.last)],
+                |d: &Mixed<X>, b: &Mixed<X>| d.before == b.before && d.mid == b.mid && d.plain == b.plain && d.bytes == b.bytes && d.after == b.after
+            )
+        }
+        7 => {
+            let lab = palette::Laba::<palette::white_point::D65, f32>::new(50.0, -12.5, 20.25, 0.5);
+            finish!(
+                (0.5f32, build(0), lab),
+                part(0).zip(own(&lab)).map(|(p, l)| if ron { format!("(0.5,{p},{l})") } else { format!("[0.5,{p},{l}]") }),
+                |b: (f32, X, palette::Laba)| vec![(0, b.1)],
+                |d: &(f32, X, palette::Laba), b: &(f32, X, palette::Laba)| d.0 == b.0 && d.2 == b.2
+            )
+        }
+        8 => finish!(
+            vec![(build(0), 1u8), (build(1), 2u8)],
+            part(0).zip(part(1)).map(|(p, q)| if ron { format!("[({p},1),({q},2)]") } else { format!("[[{p},1],[{q},2]]") }),
+            |b: Vec<(X, u8)>| b.into_iter().enumerate().map(|(i, (x, _))| (i.min(2), x)).collect::<Vec<_>>(),
+            |d: &Vec<(X, u8)>, b: &Vec<(X, u8)>| d.len() == b.len() && d.iter().zip(b.iter()).all(|(x, y)| x.1 == y.1)
+        ),
+        9 => finish!(
+            Wrap(build(0)),
+            part(0).map(|p| if ron { format!("({p})") } else { p }),
+            |b: Wrap<X>| vec![(0, b.0)],
+            |_d: &Wrap<X>, _b: &Wrap<X>| true
+        ),
+        _ => {
+            // a stream of documents on one connection (JSON only): the color is not the last thing in the stream
+            let parts: Vec<String> = match (0..n).map(|i| serde_json::to_string(&build(i)).ok()).collect::<Option<Vec<_>>>() {
+                Some(p) => p,
+                None => return Ok(ContainerRound::NotExpressible("a part could not be written".into())),
+            };
+            let mut text = String::new();
+            for (i, p) in parts.iter().enumerate() {
+                text.push_str(p);
+                text.push_str(if i % 2 == 0 { " " } else { "\n" });
+            }
+            let mut xs = Vec::new();
+            let mut io = None;
+            if a.via == 3 {
+                let mut r = SimReader::new(text.as_bytes(), a.read);
+                for item in serde_json::Deserializer::from_reader(&mut r).into_iter::<X>() {
+                    xs.push(item.map_err(|e| format!("{text} (stream from a reader) -> {e}"))?);
+                }
+                io = Some(r.stats);
+            } else {
+                for item in serde_json::Deserializer::from_str(&text).into_iter::<X>() {
+                    xs.push(item.map_err(|e| format!("{text} (stream) -> {e}"))?);
+                }
+            }
+            let others_ok = xs.len() == n;
+            let outcomes = xs.into_iter().enumerate().take(3).map(|(i, x)| (i, outcome(x, a.vals[i]))).collect();
+            Ok(ContainerRound::Back { text, composed: None, outcomes, others_ok, io })
+        }
+    }
+}
+
+mod erased {
+    /// "serialize this on its own, as JSON or RON" for the fixed companion values of the mixed documents
+    pub trait Ser {
+        fn text(&self, ron: bool) -> Option<String>;
+    }
+    impl<T: serde::Serialize> Ser for T {
+        fn text(&self, ron: bool) -> Option<String> {
+            if ron {
+                ron::ser::to_string(self).ok()
+            } else {
+                serde_json::to_string(self).ok()
+            }
+        }
+    }
+}
+
 const fn ops<X: Case>() -> Ops {
     Ops {
         record: record::<X>,
@@ -264,6 +517,7 @@ const fn ops<X: Case>() -> Ops {
         ron_from_str: ron_from_str::<X>,
         ron_from_reader: ron_from_reader::<X>,
         enum_round: enum_round::<X>,
+        container_round: container_round::<X>,
     }
 }
 
